@@ -365,6 +365,11 @@ m("c13-genesis-calls-mint", "C13", "x/coinomics/genesis.go",
   "\tk.SetMaxSupply(ctx, maxSupply)\n}", "\tk.SetMaxSupply(ctx, maxSupply)\n\tif params.EnableCoinomics {\n\t\t_ = k.MintAndAllocate(ctx)\n\t}\n}",
   "InitGenesis#calls-MintAndAllocate", "genesis import runs the mint routine (records a timestamp, so the first block mints)")
 
+m("c13-year-length-rolling", "C13", "x/coinomics/keeper/inflation.go",
+  "\tif isLeapYear {\n\t\tyearInMillis, _ = sdk.NewDecFromStr(\"31622400000\") // 366 days in milliseconds\n\t} else {\n\t\tyearInMillis, _ = sdk.NewDecFromStr(\"31536000000\") // 365 days in milliseconds\n\t}",
+  "\t_ = isLeapYear\n\tyearInMillis = sdk.NewDec(ctx.BlockTime().AddDate(1, 0, 0).Sub(ctx.BlockTime()).Milliseconds())",
+  "MintAndAllocate#year-length-from-calendar-year", "year length = length of the coming twelve months: switches to 366 days on 1 March of the year before a leap year")
+
 # ---------------- C15 ----------------
 m("c15-ucdao-on-liquidvesting-store", "C15", "app/app.go",
   "\t\tappCodec, keys[ucdaotypes.StoreKey], app.AccountKeeper, app.BankKeeper, authAddr,", "\t\tappCodec, keys[liquidvestingtypes.StoreKey], app.AccountKeeper, app.BankKeeper, authAddr,",
@@ -389,6 +394,10 @@ m("c15-upgrade-repair-on-bank-store", "C15", "app/app.go",
   "v180.CreateUpgradeHandler(app.mm, app.configurator, *app.EvmKeeper, app.BankKeeper, app.DaoKeeper, keys[ucdaotypes.StoreKey]),",
   "v180.CreateUpgradeHandler(app.mm, app.configurator, *app.EvmKeeper, app.BankKeeper, app.DaoKeeper, keys[banktypes.StoreKey]),",
   "fixUCDAOTotalBalance", "the tabled upgrade repair is handed the bank store key: it rewrites records in the bank store")
+
+m("c15-subbalance-zero-journals", "C15", "x/evm/statedb/state_object.go",
+  "func (s *stateObject) SubBalance(amount *big.Int) {\n\tif amount.Sign() == 0 {\n\t\treturn\n\t}\n", "func (s *stateObject) SubBalance(amount *big.Int) {\n",
+  "R5/C02.R3@(*x/evm/statedb.stateObject).SubBalance", "zero-value transfers journal a balance change: the sender becomes dirty and Commit writes its cached balance over precompile-made bank changes")
 
 # ---------------- C17 ----------------
 m("c17-endblock-also-sets-basefee", "C17", "x/feemarket/keeper/abci.go",
